@@ -14,10 +14,10 @@ RENAMES = {
     "assettype": ["assettype", "cat", "family"],
     "asset": ["asset", "name", "item"],
     "sequence": ["sequence", "seq", "episode"],
-    "shot": ["shot", "plan", "cut"],
+    "shot": ["shot", "plan", "cut", "shot_name"],
     "task": ["task", "step", "dept"],
     "version": ["version", "rev", "iteration"],
-    "state": ["state", "status", "stage"],
+    "state": ["state", "status", "stage", "pub_state"],
     "node": ["node", "element"],
     "ext": ["ext", "format", "suffix"],
     "layer": ["layer"], "pass": ["pass", "aov"],
@@ -50,6 +50,8 @@ def gen_params(rng, variant=None):
     p["third_basetype"] = False if ident else rng.random() < 0.5
     p["third_config"] = False if ident else rng.random() < 0.5
     p["third_config_own_mapping"] = False if ident else rng.random() < 0.6     # the third path configuration has its own folder vocabulary
+    p["default_config"] = "local" if ident else rng.choice(["local", "local", "server"])      # the default need not be the first configured
+    p["third_config_narrow"] = False if ident else rng.random() < 0.4      # the third configuration only knows the first state
     p["twin_basetype"] = False if ident else rng.random() < 0.5               # a basetype with the SAME key names as the shot one (other type code)
     p["sep"] = "_" if ident else rng.choice(["_", "-", "_", "="])   # (no regex metacharacters: literal template parts are read as regex by the resolver)
     p["folders"] = {"prod": "PROD", "assets": "ASSETS", "shots": "SHOTS", "output": "OUTPUT", "export": "EXPORT", "renders": "RENDERS"} if ident else rng.choice([
@@ -252,6 +254,8 @@ def build(p):
     }
     # third path configuration with its own vocabulary (other state folder names), still one-to-one
     m_state3 = {("B_" + k): v for k, v in m_state.items()}
+    if p.get("third_config_narrow"):
+        m_state3 = dict(list(m_state3.items())[:1])       # this archive-like tree only holds entities of the first state
     fs_kp3 = dict(fs_kp)
     fs_kp3["{%s}" % K["state"]] = "{%s:%s}" % (K["state"], _alt(list(m_state3.keys())))
     return {"sid_templates": T, "to_extrapolate": to_ex, "key_patterns": kp, "alias": alias, "key_types": key_types, "leaf_keys": leaf_keys,
@@ -259,7 +263,8 @@ def build(p):
             "path_mapping": {K["project"]: m_proj, K["type"]: m_type, K["state"]: m_state},
             "path_defaults": {K["state"]: list(m_state.keys())[0]},
             "asset_types": p["asset_types"], "states": p["states"], "type_codes": [ca, cs] + ([cr] if R else []) + ([cw] if W else []),
-            "third_mapping": {K["project"]: m_proj, K["type"]: m_type, K["state"]: m_state3} if p.get("third_config_own_mapping") else None,
+            "third_mapping": {K["project"]: m_proj, K["type"]: m_type, K["state"]: m_state3} if (p.get("third_config_own_mapping") or p.get("third_config_narrow")) else None,
+            "default_config": p.get("default_config", "local"),
             "third_fs_key_patterns": fs_kp3, "third_defaults": {K["state"]: list(m_state3.keys())[0]},
             "names": {"A": A, "S": S, "P": P, "R": R, "W": W, "K": K}, "constants": p["constants"], "third_config": p["third_config"],
             "with_assettype": p["with_assettype"]}
@@ -322,7 +327,7 @@ from __future__ import annotations
 from pathlib import Path
 
 path_configs = %(configs)r
-default_path_config = 'local'
+default_path_config = %(default_config)r
 
 _finders = {}
 
@@ -369,7 +374,7 @@ create_file_using_touch = True
 
 def get_data_json_path(sid_path: Path) -> Path:
     return sid_path.with_name('.' + sid_path.name).with_suffix(path_data_suffix)
-''' % {"configs": configs, "constants": d["constants"], "kproject": K["project"], "projects": d["projects"], "ktype": K["type"],
+''' % {"configs": configs, "default_config": d["default_config"], "constants": d["constants"], "kproject": K["project"], "projects": d["projects"], "ktype": K["type"],
        "codes": d["type_codes"], "P": P, "bts": [A, S] + ([d["names"]["R"]] if d["names"]["R"] else []) + ([d["names"]["W"]] if d["names"]["W"] else []), "A": A,
        "kassettype": K["assettype"], "asset_types": d["asset_types"], "kstate": K["state"], "states": d["states"],
        "state_types": state_types, "with_assettype": d["with_assettype"],
